@@ -208,6 +208,14 @@ partial def walkFields (all : Bytes) : List Ty → Nat → Option (List LF × Na
     | none => none
 end
 
+/-- the Conn codec writes an empty (non-null) string where the reflection codec writes null for `""`: both are
+canonical encodings (of the empty resp. the null string) — strings made non-nullable for the second comparison -/
+partial def denullStr : Ty → Ty
+  | .string c _ => .string c false
+  | .array c n t => .array c n (denullStr t)
+  | .struct f fs ids ts => .struct f (fs.map denullStr) ids (ts.map denullStr)
+  | t => t
+
 structure Case where
   m : RawMsg
   r : Resolved
@@ -301,6 +309,26 @@ def step (line : String) : String :=
                   | some (corr, v) => s!"{corr} {(embed c.m.structs c.ver root v).text}"
                   | none => "err"
                 answer model (impl == ref)
+          | _ => "bad-args"
+        else if op == "connreq" then
+          -- a request captured from a real Conn method by the strictly framing fake broker
+          match rest with
+          | cid :: pattern =>
+            match ofHex cid, ofHex impl with
+            | some cidB, some raw =>
+              let (rt, _) := refTy c
+              match Spec.parseRequest c.r.flexible rt raw with
+              | none => answer "unparsable-under-the-announced-size" false
+              | some (corr, cid', v) =>
+                -- canonical + exact framing: re-encoding what was parsed must give back every captured byte
+                let reenc1 := Spec.frameRequest c.r.flexible c.m.apiKey c.ver corr cid' (Spec.encode rt v)
+                let reenc2 := Spec.frameRequest c.r.flexible c.m.apiKey c.ver corr cid' (Spec.encode (denullStr rt) v)
+                let reenc := if reenc1 == raw then reenc1 else reenc2
+                let toks := (embed c.m.structs c.ver root v).toTokens
+                let okPat := toks.length == pattern.length &&
+                  (toks.zip pattern).all fun (a, b) => b == "*" || a == b
+                answer (toHex reenc) (reenc == raw && okPat && cid' == cidB)
+            | _, _ => "bad-hex"
           | _ => "bad-args"
         else if op == "lens" then
           match rest with
